@@ -114,6 +114,7 @@ def rand_geom(rng, exact, dims=2):
         s = [rng.choice(EXACT_SCALES) * f for _ in range(dims)]
         if dims == 2 and rng.random() < 0.2: s[1] = s[0]
         o = [si * Fraction(rng.randint(-12, 12), 4) if rng.random() < 0.85 else Fraction(0) for si in s]
+        if rng.random() < 0.12: o = [Fraction(0)] * dims
         return shape, s, o
     fam = rng.random()
     if fam < 0.5:            # two-decimal doubles, scaled by a power of two
@@ -133,6 +134,7 @@ def rand_geom(rng, exact, dims=2):
         s = [Fraction(rng.choice([1e6, 3.7e8, 2.5e3])) for _ in range(dims)]
         o = [Fraction(rng.uniform(-5, 5) * float(si)) for si in s]
     if dims == 2 and rng.random() < 0.2: s[1] = s[0]
+    if rng.random() < 0.12: o = [Fraction(0)] * dims          # the default origin: the harness then does not pass `origin` at all
     return shape, s, o
 
 def pixel_pos(n, s, o, v, flip):
@@ -440,7 +442,16 @@ def gen_mask_cases(rng, exact, kinds):
                     return [S(R), S(q), S(ang), S(c), S(s)]
                 inp = dict(base, op=kind, ell=[one()] if kind == "ell" else [one(), one()])
             if not mask_case_inband(inp):
-                yield inp; break
+                yield inp
+                if kind == "circ":
+                    # SIBLINGS in the same process: same shape and pixel scales with another centre, same centre with other pixel scales
+                    # (a result remembered per (shape, pixel scales) or per centre would be reused wrongly)
+                    dc = [sy * Fraction(rng.choice([-3, -1, 2, 5]), 4), sx * Fraction(rng.choice([-5, -2, 1, 3]), 4)]
+                    sib1 = dict(inp, c=[S(cy + dc[0]), S(cx + dc[1])])
+                    sib2 = dict(inp, s=[S(sy * 2), S(sx / 2)])
+                    for sib in (sib1, sib2):
+                        if not mask_case_inband(sib): yield sib
+                break
             SKIPPED["redrawn"] += 1
 
 def gen_all_shapes(rng, nmax):
@@ -516,12 +527,15 @@ class G2:
         self.sy, self.sx = sy, sx = F(s[0]), F(s[1]); self.oy, self.ox = oy, ox = F(o[0]), F(o[1])
         self.sh, self.ps, self.org = (H, W), (fl(sy), fl(sx)), (fl(oy), fl(ox))
         self.ps_pub = self.ps[0] if (sy == sx and (H + W) % 2) else self.ps       # a bare float is widened by convert_pixel_scales_2d
+        # an origin equal to the documented default (0.0, 0.0) is NOT passed: the default arguments are exercised
+        self.ko = {} if (oy == 0 and ox == 0) else {"origin": self.org}
+        self.kos = {} if (oy == 0 and ox == 0) else {"origins": self.org}
         self.m = [list(map(bool, r)) for r in m] if m is not None else [[False] * W for _ in range(H)]
-        if m is None: self.mask = aa.Mask2D.all_false(shape_native=self.sh, pixel_scales=self.ps_pub, origin=self.org)
-        else: self.mask = aa.Mask2D(mask=np.array(self.m, dtype=bool), pixel_scales=self.ps_pub, origin=self.org)
+        if m is None: self.mask = aa.Mask2D.all_false(shape_native=self.sh, pixel_scales=self.ps_pub, **self.ko)
+        else: self.mask = aa.Mask2D(mask=np.array(self.m, dtype=bool), pixel_scales=self.ps_pub, **self.ko)
         self.geo = self.mask.geometry
         self.hdr = f"{z2(self.sh)} {q2((sy, sx))} {q2((oy, ox))}"
-        self.kw = dict(shape_native=self.sh, pixel_scales=self.ps, origin=self.org)
+        self.kw = dict(shape_native=self.sh, pixel_scales=self.ps, **self.ko)
     def g(self, held): return self.geo if held else self.mask.geometry
     def mobj(self):
         """the EXPECTED mask object (current content, pixel scales, origin), from the inputs"""
@@ -544,16 +558,16 @@ class G2:
         outs = []
         for (a, b) in ((geo.central_pixel_coordinates, geo.central_scaled_coordinates),
                        (gu.central_pixel_coordinates_2d_from(shape_native=self.sh),
-                        gu.central_scaled_coordinate_2d_from(shape_native=self.sh, pixel_scales=self.ps, origin=self.org))):
+                        gu.central_scaled_coordinate_2d_from(shape_native=self.sh, pixel_scales=self.ps, **self.ko))):
             outs.append(([frac(a[0]), frac(a[1])], [frac(b[0]), frac(b[1])]))
         return [f"(KCentral2 {self.hdr} {cq(self.tol_p())} {q2(a)} {q2(b)})" for a, b in outs] + self.geo_of(held)[0], str(outs[0]), None
     def extent(self, held=True, fresh_array=True):
         outs = [self.g(held).extent]
-        if fresh_array: outs.append(self.aa.Array2D.no_mask(values=np.zeros(self.sh), pixel_scales=self.ps, origin=self.org).geometry.extent)
+        if fresh_array: outs.append(self.aa.Array2D.no_mask(values=np.zeros(self.sh), pixel_scales=self.ps, **self.ko).geometry.extent)
         return [f"(KExtent2 {self.hdr} {cq(self.tol_s())} {q4(e)})" for e in outs], str(outs[0]), None
     def extentgrid(self, held=True):
         ext = self.g(held).extent
-        objs = [self.aa.Grid2D.uniform(shape_native=self.sh, pixel_scales=self.ps_pub, origin=self.org), self.mask.derive_grid.all_false]
+        objs = [self.aa.Grid2D.uniform(shape_native=self.sh, pixel_scales=self.ps_pub, **self.ko), self.mask.derive_grid.all_false]
         terms = [f"(KExtentGrid {self.hdr} {cq(self.tol_s())} {q4(ext)} {q2list(fr2(np.array(g)))})" for g in objs]
         terms.append(f"(KUniformC {self.hdr} {cq(self.tol_s())} {cgobj(objs[0])})")
         terms.append(f"(KDeriveAllFalseC {self.mobj()} {cq(self.tol_s())} {cgobj(objs[1])})")
@@ -564,7 +578,7 @@ class G2:
         geo = self.g(held)
         pt = (fl(c[0]), fl(c[1]))
         outs = [geo.pixel_coordinates_2d_from(scaled_coordinates_2d=pt),
-                gu.pixel_coordinates_2d_from(scaled_coordinates_2d=pt, shape_native=self.sh, pixel_scales=self.ps, origins=self.org)]
+                gu.pixel_coordinates_2d_from(scaled_coordinates_2d=pt, shape_native=self.sh, pixel_scales=self.ps, **self.kos)]
         # snapping a coordinate to its pixel centre = index -> centre
         snapped = geo.scaled_coordinate_2d_to_scaled_at_pixel_centre_from(scaled_coordinate_2d=pt)
         back = geo.scaled_coordinates_2d_from(pixel_coordinates_2d=outs[0])
@@ -579,7 +593,7 @@ class G2:
         from autoarray.geometry import geometry_util as gu
         pp = (fl(p[0]), fl(p[1]))
         outs = [self.g(held).scaled_coordinates_2d_from(pixel_coordinates_2d=pp),
-                gu.scaled_coordinates_2d_from(pixel_coordinates_2d=pp, shape_native=self.sh, pixel_scales=self.ps, origins=self.org)]
+                gu.scaled_coordinates_2d_from(pixel_coordinates_2d=pp, shape_native=self.sh, pixel_scales=self.ps, **self.kos)]
         tol = cq(self.tol_s(F(p[0]) * self.sy, F(p[1]) * self.sx))
         return [f"(KScaled2 {self.hdr} {q2((F(p[0]), F(p[1])))} {tol} {q2((frac(o[0]), frac(o[1])))})" for o in outs], str(outs[0]), None
     def grid(self, kind, G, held=True):
@@ -634,7 +648,7 @@ class G2:
         marr = np.array(m, dtype=bool); marr_in = marr.copy()
         objs = [aa.Grid2D.from_mask(mask=self.mask), self.mask.derive_grid.unmasked]
         outs = [np.array(objs[0]), np.array(objs[1]),
-                g2u.grid_2d_slim_via_mask_from(mask_2d=marr_in, pixel_scales=self.ps, origin=self.org)]
+                g2u.grid_2d_slim_via_mask_from(mask_2d=marr_in, pixel_scales=self.ps, **self.ko)]
         tol = cq(self.tol_s())
         s, o = q2((self.sy, self.sx)), q2((self.oy, self.ox))
         terms = [f"(KGridMask {cmask(m)} {s} {o} {tol} {q2list(fr2(ou))})" for ou in outs]
@@ -644,7 +658,7 @@ class G2:
         if siblings:
             # the all-false grids of the same geometry: Grid2D.uniform, derive_grid.all_false, the native form of from_mask
             full = [[False] * W for _ in range(H)]
-            outs2 = [np.array(aa.Grid2D.uniform(shape_native=self.sh, pixel_scales=self.ps, origin=self.org)), np.array(self.mask.derive_grid.all_false)]
+            outs2 = [np.array(aa.Grid2D.uniform(shape_native=self.sh, pixel_scales=self.ps, **self.ko)), np.array(self.mask.derive_grid.all_false)]
             terms += [f"(KGridMask {cmask(full)} {s} {o} {tol} {q2list(fr2(ou))})" for ou in outs2]
             nat = np.array(aa.Grid2D.from_mask(mask=self.mask).native)
             un = [(i, j) for i in range(H) for j in range(W) if not m[i][j]]
@@ -661,8 +675,10 @@ class G1:
     def __init__(self, aa, n, s, o, exact, m=None):
         self.aa = aa; self.exact = exact; self.n = n = int(n); self.s = s = F(s); self.o = o = F(o)
         self.sh, self.ps, self.org = (n,), (fl(s),), (fl(o),)
+        self.ko = {} if o == 0 else {"origin": self.org}
+        self.kos = {} if o == 0 else {"origins": self.org}
         self.m = list(map(bool, m)) if m is not None else [False] * n
-        self.mask = aa.Mask1D(mask=np.array(self.m, dtype=bool), pixel_scales=self.ps, origin=self.org)
+        self.mask = aa.Mask1D(mask=np.array(self.m, dtype=bool), pixel_scales=self.ps, **self.ko)
         self.hdr = f"{cz(n)} {cq(s)} {cq(o)}"
     def tol_s(self, *extra): return tol_of(self.exact, abs(self.o) + self.n * self.s + max([abs(F(e)) for e in extra] + [0]))
     def tol_p(self, *extra): return tol_of(self.exact, self.n + 1 + abs(self.o / self.s) + max([abs(F(e)) for e in extra] + [0]))
@@ -678,18 +694,18 @@ class G1:
         from autoarray.structures.grids import grid_1d_util as g1u
         marr = np.array(self.m, dtype=bool); marr_in = marr.copy()
         G = self.aa.Grid1D.from_mask(mask=self.mask)
-        outs = [np.array(G), g1u.grid_1d_slim_via_mask_from(mask_1d=marr_in, pixel_scales=self.ps, origin=self.org)]
+        outs = [np.array(G), g1u.grid_1d_slim_via_mask_from(mask_1d=marr_in, pixel_scales=self.ps, **self.ko)]
         terms = [self.grid_term(self.m, ou) for ou in outs]
         terms.append(f"(KFromMask1C {self.mobj()} {cq(self.tol_s())} {cg1obj(G)})")
         return terms, str(outs[0].tolist()), same_arr(marr_in, marr) and same_arr(np.array(self.mask), marr)
     def uniform(self):
         from autoarray.structures.grids import grid_1d_util as g1u
-        U = self.aa.Grid1D.uniform(shape_native=self.sh, pixel_scales=self.ps, origin=self.org)
+        U = self.aa.Grid1D.uniform(shape_native=self.sh, pixel_scales=self.ps, **self.ko)
         u = np.array(U)
-        u2 = g1u.grid_1d_slim_via_shape_slim_from(shape_slim=self.sh, pixel_scales=self.ps, origin=self.org)
+        u2 = g1u.grid_1d_slim_via_shape_slim_from(shape_slim=self.sh, pixel_scales=self.ps, **self.ko)
         terms = [self.grid_term([False] * self.n, u), self.grid_term([False] * self.n, u2), f"(KUniform1C {self.hdr} {cq(self.tol_s())} {cg1obj(U)})"]
         for inv in (False, True):
-            A = self.aa.Mask1D.all_false(shape_slim=self.sh, pixel_scales=self.ps, origin=self.org, invert=inv)
+            A = self.aa.Mask1D.all_false(shape_slim=self.sh, pixel_scales=self.ps, **self.ko, invert=inv)
             terms.append(f"(KAllFalse1C {self.hdr} {cbool(inv)} {cm1obj(A)})")
         return terms, str(u.tolist()), None
     def edit(self, at, val):
@@ -758,8 +774,8 @@ def run_case(inp):
         how = inp["how"]
         if how == "array":
             # structures DERIVED from a constructed Array2D / Grid2D carry the geometry of the original
-            arr = aa.Array2D.no_mask(values=np.arange(1.0, H * W + 1.0).reshape(H, W), pixel_scales=g2.ps_pub, origin=g2.org)
-            grd = aa.Grid2D.uniform(shape_native=g2.sh, pixel_scales=g2.ps_pub, origin=g2.org)
+            arr = aa.Array2D.no_mask(values=np.arange(1.0, H * W + 1.0).reshape(H, W), pixel_scales=g2.ps_pub, **g2.ko)
+            grd = aa.Grid2D.uniform(shape_native=g2.sh, pixel_scales=g2.ps_pub, **g2.ko)
             ders = [arr * 2.0, arr + arr, arr.native, arr.slim, arr.native.slim, (arr - 1.0).native, grd.native, grd * 1.0, grd.native.slim,
                     aa.Grid2D.from_mask(mask=g2.mask), g2.mask.derive_grid.all_false, g2.mask.derive_mask.all_false]
             c = inp["c"]
@@ -776,7 +792,7 @@ def run_case(inp):
         elif how == "mask":
             # masks derived from the live mask: same pixel scales and origin, their own shape / content (read from the object)
             ders = [g2.mask.derive_mask.all_false, g2.mask.resized_from(new_shape=tuple(inp["resized"])),
-                    aa.Mask2D(mask=g2.mask, pixel_scales=g2.ps, origin=g2.org)]
+                    aa.Mask2D(mask=g2.mask, pixel_scales=g2.ps, **g2.ko)]
             for d in ders:
                 content = np.array(d).astype(bool).tolist()
                 dg = G2(aa, (len(content), len(content[0])), (g2.sy, g2.sx), (g2.oy, g2.ox), exact, m=content)
@@ -799,7 +815,7 @@ def run_case(inp):
     if op == "derived1":
         g1 = G1(aa, inp["n"], inp["s"], inp["o"], exact, m=inp["m"])
         acc = Acc()
-        arr = aa.Array1D.no_mask(values=np.arange(1.0, g1.n + 1.0), pixel_scales=g1.ps, origin=g1.org)
+        arr = aa.Array1D.no_mask(values=np.arange(1.0, g1.n + 1.0), pixel_scales=g1.ps, **g1.ko)
         grd = aa.Grid1D.from_mask(mask=g1.mask)
         for d in (arr * 2.0, arr + arr, arr.native, arr.slim, grd, grd * 1.0, grd.native, grd.native.slim):
             acc.add([g1.extent_term(d.geometry.extent)], str(d.geometry.extent))
@@ -823,19 +839,19 @@ def run_case(inp):
         n, s, o, hdr, sh, ps, org = g1.n, g1.s, g1.o, g1.hdr, g1.sh, g1.ps, g1.org
         if op == "central1":
             a = gu.central_pixel_coordinates_1d_from(shape_slim=sh)
-            b = gu.central_scaled_coordinate_1d_from(shape_slim=sh, pixel_scales=ps, origin=org)
+            b = gu.central_scaled_coordinate_1d_from(shape_slim=sh, pixel_scales=ps, **g1.ko)
             return done([f"(KCentral1 {hdr} {cq(g1.tol_p())} {cq(frac(a[0]))} {cq(frac(b[0]))})"], str((a, b)))
         if op == "extent1":
-            mk = aa.Mask1D.all_false(shape_slim=sh, pixel_scales=ps, origin=org)
+            mk = aa.Mask1D.all_false(shape_slim=sh, pixel_scales=ps, **g1.ko)
             return done([g1.extent_term(mk.geometry.extent)], str(mk.geometry.extent))
         if op == "pix1":
             x = F(inp["x"])
             if (not exact) and in_margin(pixel_pos(n, s, o, x, False)): return skip()
-            r = gu.pixel_coordinates_1d_from(scaled_coordinates_1d=(fl(x),), shape_slim=sh, pixel_scales=ps, origins=org)
+            r = gu.pixel_coordinates_1d_from(scaled_coordinates_1d=(fl(x),), shape_slim=sh, pixel_scales=ps, **g1.kos)
             return done([f"(KPix1 {hdr} {cq(x)} {cz(int(r[0]))})"], str(r))
         if op == "scaled1":
             p = F(inp["p"])
-            r = gu.scaled_coordinates_1d_from(pixel_coordinates_1d=(fl(p),), shape_slim=sh, pixel_scales=ps, origins=org)
+            r = gu.scaled_coordinates_1d_from(pixel_coordinates_1d=(fl(p),), shape_slim=sh, pixel_scales=ps, **g1.kos)
             return done([f"(KScaled1 {hdr} {cq(p)} {cq(g1.tol_s(p * s))} {cq(frac(r[0]))})"], str(r))
         if op == "grid1mask":
             t1, out, ok = g1.gridmask()
@@ -851,9 +867,10 @@ def run_case(inp):
         inv = bool(inp.get("invert", False))
         hdr = f"{z2(sh)} {q2((sy, sx))}"
         cc = q2((cy, cx))
-        kw = dict(shape_native=sh, pixel_scales=ps, centre=ctr)
+        kw = dict(shape_native=sh, pixel_scales=ps, **({} if (cy == 0 and cx == 0) else {"centre": ctr}))     # defaults are not passed
+        korg = {} if org == (0.0, 0.0) else {"origin": org}
         kwp = dict(kw, pixel_scales=ps[0]) if (sy == sx and (H + W) % 2) else dict(kw)      # public entry point: bare float scale
-        kwp.update(origin=org, invert=inv)
+        kwp.update(**korg, **({"invert": True} if inv else {}))
         ctail = f"{q2((sy, sx))} {q2((F(inp['origin'][0]), F(inp['origin'][1])))} {cc} {cbool(inv)}"      # pixel_scales origin centre invert
         if op == "circ":
             r = F(inp["r"][0])
@@ -892,7 +909,7 @@ def run_case(inp):
         pubm = np.array(pub).astype(bool)
         # the util routine's array, and the OBJECT the public constructor returned (content -- complemented when invert=True --, pixel scales, origin)
         terms = [mk(np.array(outs[1]).astype(bool)), mkc(pub)]
-        af = aa.Mask2D.all_false(shape_native=sh, pixel_scales=kwp["pixel_scales"], origin=org, invert=inv)
+        af = aa.Mask2D.all_false(shape_native=sh, pixel_scales=kwp["pixel_scales"], **korg, invert=inv)
         terms.append(f"(KAllFalseC {z2(sh)} {q2((sy, sx))} {q2((F(inp['origin'][0]), F(inp['origin'][1])))} {cbool(inv)} {cmobj(af)})")
         # the pixel-centre grid of the constructed mask is placed with the mask's origin
         gt = G2(aa, sh, (sy, sx), (F(inp["origin"][0]), F(inp["origin"][1])), exact, m=pubm.tolist())
